@@ -56,7 +56,7 @@ fn request_bytes(n: usize) -> Vec<u8> {
     .into_bytes()
 }
 
-async fn run_case(case: Vec<String>) -> String {
+pub async fn run_case(case: Vec<String>) -> String {
     let incoming = case[2] == "in";
     let remote: SocketAddr = "10.9.9.9:5060".parse().unwrap();
     let delivered: Arc<Mutex<usize>> = Default::default();
@@ -117,6 +117,13 @@ async fn run_case(case: Vec<String>) -> String {
                     }
                     Err(_) => sel.push("E"),
                 },
+                "other" => {
+                    // a request to an unrelated destination: its selection scans the registered connections
+                    let other_uri = endpoint.parse_uri("sip:carol@10.8.8.8").unwrap();
+                    if let Ok((h, _)) = endpoint.select_transport(&*other_uri).await {
+                        extra.push(h);
+                    }
+                }
                 "frame" => {
                     nframes += 1;
                     if let Some(io) = peer.as_mut() {
